@@ -18,8 +18,11 @@ accepted and the parent takes over the child's root and content); a merge is a s
 events on the parent (`merge_is_events`), so the collector algebra and `C04_complete_partial` cover rounds with merges.
 
 Publication into the store: `view_resolves` (a trie's own view resolves in its layered store, closed form) and
-`merge_resolves_partial` (after an accepted merge the parent's root resolves in the parent's layered store, under the
-event discipline of the parent's event list); the unconditional statement is the `def MergeResolves`.
+`merge_resolves_partial` / `merge_resolves_one_child` / `run_resolves` / `resolves_interp` (after accepted merges - any
+number, nested - the parent's root resolves in the parent's layered store; the discipline is proved, `order_never_stuck`);
+store-READING operations and their refinement to the value model (`storeOps_refine`, `child_ops_read_through`), and the
+frame statements over the interpreter (`C03_isolation`, `C03_discard`, `C03_stale_rejected`, `C03_merge_publishes`).
+`def MergeResolves` is the statement without the side conditions (`KeyInjOn`, canonical start tree), kept as a def.
 Before fix 8b1f6ed it was false of the code for some replay orders (corpus/C03/fixed_merge_order.ops); `mergeChanges`
 now replays the changes in the order computed by `orderChanges`, which the model contains literally.
 -/
@@ -33,6 +36,8 @@ import Verif.Lemmas.TrieRun
 import Verif.Lemmas.NotStuck
 import Verif.Lemmas.Interp
 import Verif.Lemmas.OrderChanges
+import Verif.Lemmas.StoreRead
+import Verif.Lemmas.Frame
 namespace Verif.Props.C03
 open Verif.Mpt Verif.MptStore Verif.MptStore.Collector
 
@@ -331,17 +336,209 @@ theorem order_never_stuck (H : Bytes → Bytes) (U : Ref → Prop) (hU : KeyInjO
   have h := trieRun_not_stuck H U hU hrun hw hUt c0 hfresh cs hperm
   exact ⟨h, orderChanges_good H cs h⟩
 
-/-- The full publication statement: after an accepted merge of a child whose own view resolved, the parent's new root
-    resolves in the parent's layered store (`get` = read-through of the parent's level and everything below it).
-    Proved as `merge_resolves_partial` under the event discipline of the parent's whole event list (own operations and
-    merge replays); the discipline itself is proved for a trie's own operations (`view_resolves`), not yet for the
-    replay of a child's collector.  (Without `orderChanges` it is false: corpus/C03/fixed_merge_order.ops, the parent's
-    store lost a live node when a re-creation was replayed before the replacement of the same key.) -/
+/-- The publication statement WITHOUT side conditions: after an accepted merge of a child whose own view resolved, the
+    parent's new root resolves in the parent's layered store.  It is proved with the side conditions "canonical start
+    tree, key injectivity on the references of the run": `merge_resolves_one_child` (one child), `run_resolves` (any run
+    with nested merges), `resolves_interp` (every history of the interpreter); the discipline of the replay of a child's
+    collector is proved (`merge_calls_ok`, `trieRun_discipline`) and the replay order is never stuck (`order_never_stuck`).
+    (Without `orderChanges` it is false: corpus/C03/fixed_merge_order.ops.)  Kept as a `def`: without `KeyInjOn` it is not
+    provable (hash collisions). -/
 def MergeResolves : Prop :=
   ∀ (H : Bytes → Bytes) (below : Bytes → Option Bytes) (p c p' : Trie) (changes : List (Change Ref)),
     changes.Perm c.cc.getChanges →
     Resolves H (fun k => (Map.get c.db.current k).orElse fun _ => (Map.get p.db.current k).orElse fun _ => below k) c.tree [] →
     mergeMPTChangesOrd H p c changes = .ok p' →
     Resolves H (fun k => (Map.get p'.db.current k).orElse fun _ => below k) p'.tree []
+
+/-! ### store-READING operations (Model/MptStoreRead): the layered store is actually read
+
+`insertS`/`deleteS`/`lookupS` take a store and a root KEY, resolve every node of the tree under that key through `get` and
+then operate; `Resolves` - the conclusion of `view_resolves`, `merge_resolves_*`, `run_resolves`, `resolves_interp` - is the
+premise under which they agree with the value-level operations.  `dec` reads a node's fields and child keys back from its
+stored encoding (the codec of C14; assumed on the nodes of the tree).  The loader reads the whole tree (Go: the path only),
+so `nodeNotFound` here over-approximates Go's: a node of the tree that `get` does not deliver always fails the operation. -/
+
+/-- **Refinement.**  When the tree `t` resolves in the store read through `get`, the store-reading `Insert`, `Delete` and
+    lookup on (store, root key of `t`) return exactly the value-level result, with the same events. -/
+theorem storeOps_refine (H : Bytes → Bytes) (dec : Bytes → Option Shape) (get : Bytes → Option Bytes) (t : Node) (fuel : Nat)
+    (hdec : ∀ r ∈ refs t [], dec (r.encode H) = shapeOf H r.t r.pos)
+    (hres : Resolves H get t []) (hf : height t ≤ fuel) (v : Nat) (b : Bytes) (p : List Nib) :
+    insertS (shapesOf dec get) fuel v b (okey H t []) p = .ok (insertE v b t [] p) ∧
+    deleteS (shapesOf dec get) fuel v (okey H t []) p = .ok (deleteE v t [] p) ∧
+    lookupS (shapesOf dec get) fuel (okey H t []) p = .ok (lookup t p) := by
+  have hl := loadS_resolves H (shapesOf dec get) t [] fuel hf (resolvesS_of_resolves H dec get t [] hdec hres)
+  simp [insertS, deleteS, lookupS, hl]
+
+/-- **A node that the store does not deliver is an error.**  If every node of `t` is either stored correctly or absent and
+    at least one is absent, all three operations return `nodeNotFound` (and hence no tree, no events). -/
+theorem storeOps_nodeNotFound (H : Bytes → Bytes) (getS : Bytes → Option Shape) (t : Node) (fuel : Nat)
+    (hall : ∀ r ∈ refs t [], getS (r.key H) = shapeOf H r.t r.pos ∨ getS (r.key H) = none)
+    (hmiss : ∃ r ∈ refs t [], getS (r.key H) = none) (v : Nat) (b : Bytes) (p : List Nib) :
+    insertS getS fuel v b (okey H t []) p = .nodeNotFound ∧
+    deleteS getS fuel v (okey H t []) p = .nodeNotFound ∧
+    lookupS getS fuel (okey H t []) p = .nodeNotFound := by
+  have hl := loadS_missing H getS t [] fuel hall hmiss
+  simp [insertS, deleteS, lookupS, hl]
+
+/-- **A child reads through the levels.**  A trie opened with an empty level over stores `below` in which its start tree
+    resolves, after any round of its own operations: its next operation, executed by READING its layered store (own
+    level, then `below`) from its root key, is the value-level operation.  `view_resolves` is the premise that is used. -/
+theorem child_ops_read_through (H : Bytes → Bytes) (dec : Bytes → Option Shape) (below : Bytes → Option Bytes)
+    (t0 t : Node) (b0 : Trie) (v : Nat) (es : List Event)
+    (hfresh : b0.cc.changes = [] ∧ b0.cc.deletes = []) (hcur : b0.db.current = [])
+    (h0 : Resolves H below t0 []) (hw : WF t0) (hr : RoundEvents v t0 es t)
+    (hU : KeyInjOn H (fun r => r ∈ refs t0 [] ∨ r ∈ eventRefs es))
+    (hdec : ∀ r ∈ refs t [], dec (r.encode H) = shapeOf H r.t r.pos) (fuel : Nat) (hf : height t ≤ fuel)
+    (b : Bytes) (p : List Nib) :
+    insertS (shapesOf dec (levelGet (b0.applyEvents H es) below)) fuel v b (okey H t []) p = .ok (insertE v b t [] p) ∧
+    deleteS (shapesOf dec (levelGet (b0.applyEvents H es) below)) fuel v (okey H t []) p = .ok (deleteE v t [] p) ∧
+    lookupS (shapesOf dec (levelGet (b0.applyEvents H es) below)) fuel (okey H t []) p = .ok (lookup t p) :=
+  storeOps_refine H dec _ t fuel hdec (view_resolves H below t0 t b0 v es hfresh hcur h0 hw hr hU) hf v b p
+
+/-- non-vacuity of `storeOps_refine` / `storeOps_nodeNotFound`: the one-leaf tree in a store that holds it / is empty -/
+example : lookupS (shapesOf (fun _ => some (.leaf 1 [3] [65])) (fun k => if k = Ref.key id ⟨[], .leaf 1 [3] [65]⟩ then some (Ref.encode id ⟨[], .leaf 1 [3] [65]⟩) else none))
+      1 (okey id (.leaf 1 [3] [65]) []) [3] = .ok (some [65]) ∧
+    lookupS (fun _ => none) 1 (okey id (.leaf 1 [3] [65]) []) [3] = .nodeNotFound := by
+  constructor
+  · have h := (storeOps_refine id (fun _ => some (.leaf 1 [3] [65]))
+      (fun k => if k = Ref.key id ⟨[], .leaf 1 [3] [65]⟩ then some (Ref.encode id ⟨[], .leaf 1 [3] [65]⟩) else none)
+      (.leaf 1 [3] [65]) 1 (by intro r hr; simp [refs] at hr; subst hr; rfl)
+      (by intro r hr; simp [refs] at hr; subst hr; simp) (by simp [height]) 0 [] [3]).2.2
+    rw [h]; simp [lookup, splitCommon]
+  · exact (storeOps_nodeNotFound id (fun _ => none) (.leaf 1 [3] [65]) 1 (fun _ _ => Or.inr rfl)
+      ⟨⟨[], .leaf 1 [3] [65]⟩, by simp [refs], rfl⟩ 0 [] [3]).2.2
+
+/-! ### isolation, discard, stale, publication over the interpreter `Forest.step`
+
+In the value model a trie carries its content, so these hold by the construction of `Forest.step`; they are stated because
+they are what the harness's frame / discard / stale / merge oracles compare the Go code against (the model driver
+executes `Forest.step`).  With the store-reading operations above the per-trie view is what `Resolves` makes readable. -/
+
+/-- **Isolation (frame).**  An op changes at most its target trie (for a merge: the parent of the merged trie) and closes
+    at most the merged / discarded trie with its descendants; every other trie of the forest - root, tree, version,
+    level, collector - is exactly what it was. -/
+theorem C03_isolation (H : Bytes → Bytes) (ord : List (Change Ref) → List (Change Ref)) (f : Forest) (op : TOp) (id' : Nat)
+    (ht : Forest.target f op ≠ some id') (hc : Forest.closes f op id' = false) :
+    (f.step H ord op).1.find id' = f.find id' := by
+  cases op with
+  | child id pid =>
+    have hne : id' ≠ id := fun h => ht (by simp [Forest.target, h])
+    simp only [Forest.step]
+    split
+    · split
+      · rfl
+      · exact Forest.find_append_ne f _ id' hne
+    · rfl
+  | ins id p b =>
+    have hne : id' ≠ id := fun h => ht (by simp [Forest.target, h])
+    simp only [Forest.step]
+    split
+    · split
+      · split
+        · exact Forest.find_set_ne f id id' _ hne
+        · rfl
+        · rfl
+      · exact Forest.find_set_ne f id id' _ hne
+    · rfl
+  | del id p =>
+    have hne : id' ≠ id := fun h => ht (by simp [Forest.target, h])
+    simp only [Forest.step]
+    split
+    · split
+      · exact Forest.find_set_ne f id id' _ hne
+      · rfl
+      · rfl
+    · rfl
+  | ver id v =>
+    have hne : id' ≠ id := fun h => ht (by simp [Forest.target, h])
+    simp only [Forest.step]
+    split
+    · exact Forest.find_set_ne f id id' _ hne
+    · rfl
+  | discard id =>
+    simp only [Forest.closes] at hc
+    simp only [Forest.step]
+    split
+    · split
+      · rfl
+      · rw [Forest.find_close, hc]; rfl
+    · rfl
+  | merge id keep =>
+    simp only [Forest.closes] at hc
+    simp only [Forest.step]
+    split
+    · rename_i pid c hfind
+      have hne : id' ≠ pid := fun h => ht (by simp [Forest.target, hfind, h])
+      split
+      · rfl
+      · split
+        · split
+          · rename_i p' _
+            cases keep
+            · simp only [Bool.false_eq_true, if_false]
+              rw [Forest.find_close]
+              by_cases hcc : Forest.closed (f.set pid p') id id' = true
+              · -- closing is decided on the forest after the parent was set; the parent links are the same
+                simp only [hcc, if_true]
+                exact absurd hcc (by
+                  have : Forest.closed (f.set pid p') id id' = Forest.closed f id id' := by
+                    simp only [Forest.closed, Forest.set, List.length_map]
+                    congr 1
+                    exact Forest.isDesc_set f pid p' id _ id'
+                  rw [this, hc]; simp)
+              · simp only [hcc, Bool.false_eq_true, if_false]
+                exact Forest.find_set_ne f pid id' _ hne
+            · simp only [if_true]
+              exact Forest.find_set_ne f pid id' _ hne
+          · rfl
+        · rfl
+    · rfl
+/-- **Discard leaves no trace.**  Dropping a trie removes it and its descendants; every other trie - in particular its
+    parent, which is not below it - keeps its root, tree, version, level and collector. -/
+theorem C03_discard (H : Bytes → Bytes) (ord : List (Change Ref) → List (Change Ref)) (f : Forest) (id id' : Nat)
+    (hc : Forest.closed f id id' = false) :
+    (f.step H ord (.discard id)).1.find id' = f.find id' :=
+  C03_isolation H ord f (.discard id) id' (by simp [Forest.target]) (by simpa [Forest.closes] using hc)
+
+/-- **A stale child is rejected and nothing changes**: when the parent's root is neither the root the child started from
+    nor the child's root, the merge reports `stale` and the whole forest - parent, child, everything - is what it was,
+    for every replay order `ord`. -/
+theorem C03_stale_rejected (H : Bytes → Bytes) (ord : List (Change Ref) → List (Change Ref)) (f : Forest)
+    (id pid ppid : Nat) (c p : Trie) (keep : Bool) (hid : id ≠ 0)
+    (hc : f.find id = some (pid, c)) (hp : f.find pid = some (ppid, p))
+    (hmoved : p.root ≠ c.cc.startRoot) (hne : p.root ≠ c.root) :
+    ∃ r, f.step H ord (.merge id keep) = (f, r) ∧ (match r with | .stale => True | _ => False) := by
+  refine ⟨.stale, ?_, trivial⟩
+  simp only [Forest.step, hc, hp, hid, if_false, merge_stale H p c _ hmoved hne]
+
+/-- **An accepted merge publishes the child's view**: when the parent is still at the root the child started from, the
+    merge is accepted, the parent's root and content are the child's, and (with `keep`) the child is what it was. -/
+theorem C03_merge_publishes (H : Bytes → Bytes) (ord : List (Change Ref) → List (Change Ref)) (f : Forest)
+    (id pid ppid : Nat) (c p : Trie) (hid : id ≠ 0) (hpc : id ≠ pid)
+    (hc : f.find id = some (pid, c)) (hp : f.find pid = some (ppid, p))
+    (hfresh : p.root = c.cc.startRoot) (hne : p.root ≠ c.root) :
+    ∃ p', (f.step H ord (.merge id true)).1.find pid = some (ppid, p') ∧ p'.root = c.root ∧ p'.tree = c.tree ∧
+      (f.step H ord (.merge id true)).1.find id = some (pid, c) := by
+  obtain ⟨p', hm, hr, ht, _⟩ := merge_fresh H p c (ord c.cc.getChanges) hfresh hne
+  refine ⟨p', ?_, hr, ht, ?_⟩
+  · simp only [Forest.step, hc, hp, hid, if_false, hm, if_true]
+    exact Forest.find_set_eq f pid ppid p p' hp
+  · simp only [Forest.step, hc, hp, hid, if_false, hm, if_true]
+    rw [Forest.find_set_ne f pid id p' hpc]; exact hc
+
+/-- non-vacuity of the four statements: block trie 0 with the child 1 that inserted a key -/
+example :
+    let f0 : Forest := { tries := [(0, 0, Trie.open [] .empty 1)] }
+    let f1 := (f0.step id (fun l => l) (.child 1 0)).1
+    let f2 := (f1.step id (fun l => l) (.ins 1 [3] [65])).1
+    f2.find 0 = f0.find 0 ∧ (f2.step id (fun l => l) (.discard 1)).1.find 0 = f0.find 0 := by
+  intro f0 f1 f2
+  have h1 : f1.find 0 = f0.find 0 :=
+    C03_isolation id (fun l => l) f0 (.child 1 0) 0 (by simp [Forest.target]) (by simp [Forest.closes])
+  have h2 : f2.find 0 = f1.find 0 :=
+    C03_isolation id (fun l => l) f1 (.ins 1 [3] [65]) 0 (by simp [Forest.target]) (by simp [Forest.closes])
+  refine ⟨h2.trans h1, ?_⟩
+  rw [C03_discard id (fun l => l) f2 1 0 (by decide)]
+  exact h2.trans h1
 
 end Verif.Props.C03
